@@ -24,6 +24,7 @@ def history(tname, meta, structs, rng, length):
     cur = dict(zip(fields, selfv)) if isinstance(selfv, (list, tuple)) and len(selfv) == len(fields) else {}
     # some histories move a parameter only by tiny amounts / between tiny magnitudes ("did it change?" guards on setters)
     tiny_mode = rng.random() < 0.2
+    asked = []
     for _ in range(length):
         r = rng.random()
         if r < 0.35 and meta['setters']:
@@ -49,6 +50,9 @@ def history(tname, meta, structs, rng, length):
                 else:
                     vals.append(gen.default_value(t, rng) if t != 'real' else gen.pos(rng))
             steps.append(m + ' ' + ' '.join(enc(v) for v in vals))
+        elif r < 0.9 and asked and rng.random() < 0.4:
+            # ask an earlier question again (same method, same arguments): the direct probe for a stale cache
+            steps.append(rng.choice(asked))
         elif r < 0.9:
             q, ptys, kd = rng.choice(meta['queries'])
             args = []
@@ -59,6 +63,7 @@ def history(tname, meta, structs, rng, length):
                     v = v % 2
                 args.append(v)
             steps.append(q + (' ' + ' '.join(enc(v) for v in args) if args else ''))
+            asked.append(steps[-1])
         elif r < 0.95:
             steps.append('clone')
         elif meta['eq']:
@@ -122,10 +127,13 @@ def extra_run(man, tier, seed, only=None, nper=None):
     obligations = []
     bad_types = collections.Counter()
     nq = 0
+    ran, answered = collections.Counter(), collections.Counter()
     for line, (tname, steps), ans in zip(lines, meta, impl):
+        ran[tname] += 1
         if ans in ('PANIC', 'HANG', 'DIED', 'NOOP'):
             # a panic inside a query on out-of-domain input is not a history dependence; count separately
             continue
+        answered[tname] += 1
         pairs = [p.split() for p in ans.split(' | ')] if ans else []
         for p in pairs:
             nq += 1
@@ -135,6 +143,11 @@ def extra_run(man, tier, seed, only=None, nper=None):
                 failures.append({'site': tname, 'case': line, 'impl': ans, 'expected': 'every pair "got fresh" bit-identical',
                                  'observed': 'stale', 'detail': ' '.join(p)})
                 break
+    # a type whose histories (almost) all fail to run is not being observed at all (e.g. an op name shadowed in the harness)
+    for tname in sorted(ran):
+        if answered[tname] * 2 < ran[tname]:
+            obligations.append({'name': f'coverage:hist.{tname}', 'kind': 'coverage', 'ok': False, 'site': tname,
+                                'detail': f'only {answered[tname]} of {ran[tname]} histories of {tname} ran to the end (PANIC / HANG / NOOP)'})
     # every cache-holding type must have a soundness theorem (coverage of the theorem list)
     import re, os
     from checklib import core
